@@ -17,6 +17,7 @@
 EXTENDS RangeSyntax, TLC, Json, SequencesExt
 
 CONSTANTS Mode, Size, Emit,
+          CaseOp,       \* "rparse": one text per tree; "concat": the two halves of a pair separately (C02)
           Slice, Of     \* only every Of-th first element, starting at Slice (quick tier: a seeded slice; thorough: Of = 1)
 
 D(n) == FromNat(n)
@@ -58,7 +59,8 @@ PairB ==
                   PartialOf(CNum(D(1)), CNum(D(0)), CNum(D(0)), <<tag0>>, <<>>),
                   PartialOf(CNum(D(0)), CNum(D(1)), CAbs, <<>>, <<>>),
                   PartialOf(CNum(D(1)), CAbs, CAbs, <<>>, <<>>),
-                  PartialOf(CNum(D(0)), CNum(D(0)), CNum(D(1)), <<tag0>>, <<>>) } }
+                  PartialOf(CNum(D(0)), CNum(D(0)), CNum(D(1)), <<tag0>>, <<>>),
+                  PartialOf(CNum(D(0)), CNum(D(0)), CNum(D(0)), <<tagA>>, <<>>) } }
 Garbage == { GarbageOf(<<102, 111, 111>>), GarbageOf(<<49, 46, 121>>), GarbageOf(<<62, 61, 97>>), GarbageOf(<<126, 49, 46, 121>>) }
 
 Nil == <<>>
@@ -93,14 +95,24 @@ PFor(rg) == Probes(AstEnds(rg) \cup Ends(FoldRange(rg))) \cup Grid
 UseGrid(rg) == Mode # "single" \/ (rg.alts[1].cs[1].sp = <<>> /\ ~rg.alts[1].cs[1].pa.v /\ rg.alts[1].cs[1].pa.bld = <<>> /\ ~rg.alts[1].cs[1].pa.nohy)
 CaseProbes(rg) == IF UseGrid(rg) THEN PFor(rg) ELSE Probes(AstEnds(rg))
 
+ValidPlain(c) == c.op \notin {"garbage", "hyphen"}
+EmitCase(rg) ==
+  IF CaseOp = "rparse" THEN
+    PrintT(<<"CASE", ToJson([op |-> "rparse", dst |-> 1, text |-> RenderRange(rg), ast |-> rg, vs |-> SetToSeq(CaseProbes(rg))])>>)
+  ELSE IF Len(rg.alts) = 2 THEN
+    PrintT(<<"CASE", ToJson([op |-> "concat", kind |-> "or", a |-> RenderAlt(rg.alts[1]), b |-> RenderAlt(rg.alts[2]),
+                             vs |-> SetToSeq(CaseProbes(rg))])>>)
+  ELSE IF Len(rg.alts[1].cs) = 2 /\ ValidPlain(rg.alts[1].cs[1]) /\ ValidPlain(rg.alts[1].cs[2]) THEN
+    PrintT(<<"CASE", ToJson([op |-> "concat", kind |-> "and", a |-> RenderCmp(rg.alts[1].cs[1]), b |-> RenderCmp(rg.alts[1].cs[2]),
+                             vs |-> SetToSeq(CaseProbes(rg))])>>)
+  ELSE TRUE
 Next == \/ /\ first = Nil
            /\ first' \in FirstPick
            /\ r' = Nil
         \/ /\ first # Nil /\ r = Nil
            /\ r' \in Seconds(first)
            /\ first' = first
-           /\ (Emit => PrintT(<<"CASE", ToJson([op |-> "rparse", dst |-> 1, text |-> RenderRange(r'), ast |-> r',
-                                                vs |-> SetToSeq(CaseProbes(r'))])>>))
+           /\ (Emit => EmitCase(r'))
 Spec == Init /\ [][Next]_vars
 
 Ready == r # Nil
